@@ -511,7 +511,9 @@ func c09Probe() {
 // ---------------------------------------------------------------------------
 // system level: opgen under strace
 
-var reGetrandom4 = regexp.MustCompile(`getrandom\((?:"[^"]*"|0x[0-9a-f]+), 4, 0\)\s+= (-?\d+)`)
+// strace -f splits a call that is interrupted by another thread's activity into "getrandom( <unfinished ...>"
+// and "<... getrandom resumed>"...", 4, 0) = 4": both spellings of a completed 4-byte request are counted
+var reGetrandom4 = regexp.MustCompile(`(?:getrandom\(|getrandom resumed>)(?:"[^"]*"|0x[0-9a-f]+), 4, 0\)\s+= (-?\d+)`)
 
 func c09Strace(c *Ctx, k int) {
 	opgen := os.Getenv("VCHECK_OPGEN")
